@@ -178,7 +178,7 @@ def evaluate(ctx, items, flagsets, open_map, ids, exe=None):
         kind = X.handle_verdict(ctx, PID, v, flagsets, open_map, "a FAILED transaction left an effect beyond nonce and fee, or was announced", rep,
                                 relevant=RELEVANT)
         if kind == "mismatch":
-            ctx.broken("correspondence:judge_frame", "first differing block: " + json.dumps(rep)[:1500])
+            ctx.broken("correspondence:judge_frame", "first differing block: replay=%s %s" % (X.save_mismatch(ctx, rep), json.dumps(rep)[:600]))
         elif kind == "domain":
             ctx.broken("correspondence:judge_frame(domain)", json.dumps(rep)[:800])
 
